@@ -340,6 +340,322 @@ def run_host_scenario(sc):
     return asyncio.run(main())
 
 
+# ----------------------------------------------------------------------------- routing (handle re-use across link kinds)
+KINDS = ['c', 'l', 'cis', 'bis']
+
+
+def gen_routing_scenario(rng, max_ops=40):
+    """A real Host reset against a real virtual Controller with three buffer pools (or two when LE shares the BR/EDR
+    pool); links of four kinds (BR/EDR ACL, LE ACL, CIS, BIS of a BIG) come and go on a SMALL set of handles, so that a
+    handle is re-used by a link of another kind (another queue); traffic, completion reports (one per packet, several
+    handles per event, spurious reports for live / closed / unknown handles, over-reports)."""
+    shared = rng.chance(1, 3)
+    geom = {'acl_count': rng.choice([1, 2, 3, 4]), 'le_count': 0 if shared else rng.choice([1, 2, 3]),
+            'iso_count': rng.choice([1, 2, 3])}
+    pool = rng.choice([[1, 2], [1, 2, 3], [16, 17, 18]])
+    live = {}
+    ops = []
+    big = 0
+    for _ in range(rng.range(6, max_ops)):
+        r = rng.below(100)
+        free = [h for h in pool if h not in live]
+        if r < 22 and free:
+            k = rng.choice(KINDS)
+            h = rng.choice(free)
+            if k == 'bis':
+                big += 1
+                hs = [h]
+                others = [x for x in free if x != h]
+                if others and rng.chance(1, 3):
+                    hs.append(rng.choice(others))
+                for x in hs:
+                    live[x] = ('bis', big)
+                ops.append(['O', 'bis', hs, big, rng.choice(['create', 'sync'])])
+            else:
+                live[h] = (k, None)
+                ops.append(['O', k, [h]])
+        elif r < 36 and live:
+            h = rng.choice(sorted(live))
+            k, b = live[h]
+            if k == 'bis':
+                for x in [x for x in live if live[x] == ('bis', b)]:
+                    del live[x]
+                ops.append(['X', 'bis', b, rng.choice(['terminate', 'lost'])])
+            else:
+                del live[h]
+                ops.append(['X', k, h])
+        elif r < 70 and live:
+            ops.append(['S', rng.choice(sorted(live)), rng.choice([1, 1, 2, 3, 5])])
+        elif r < 88:
+            ops.append(['C', rng.choice([1, 1, 2, 3, 9])])
+        elif r < 94:
+            ops.append(['M', rng.choice([2, 3, 9])])
+        else:
+            ops.append(['R', rng.choice(pool + [0x0EEE]), rng.choice([0, 1, 2, 7])])
+    ops.append(['C', 999])
+    return {'geom': geom, 'ops': ops}
+
+
+def run_routing_scenario(sc):
+    """Returns (model ops as Coq text pieces, sent log [[id, handle]], per-queue observables, oracle verdict or None)."""
+    from bumble import hci
+    from bumble.controller import Controller
+    from bumble.host import Host
+    from bumble.transport.common import AsyncPipeSink
+
+    g = sc['geom']
+    shared = not g['le_count']
+    qidx = {'c': 0, 'l': 0 if shared else 1, 'cis': 1 if shared else 2, 'bis': 1 if shared else 2}
+    caps = [g['acl_count'], g['iso_count']] if shared else [g['acl_count'], g['le_count'], g['iso_count']]
+
+    class Ctl(Controller):
+        def __init__(self):
+            super().__init__('C')
+            self.acl_data_packet_length = 251
+            self.total_num_acl_data_packets = g['acl_count']
+            self.le_acl_data_packet_length = 0 if shared else 251
+            self.total_num_le_acl_data_packets = g['le_count']
+            self.iso_data_packet_length = 251
+            self.total_num_iso_data_packets = g['iso_count']
+            self.held = []          # occupied buffers, oldest first: (pool index, handle, packet id)
+            self.log = []
+
+        def on_hci_packet(self, packet):
+            if isinstance(packet, hci.HCI_AclDataPacket):
+                d = bytes(packet.data)
+                self.got(packet.connection_handle, d[0] | (d[1] << 8))
+            elif isinstance(packet, hci.HCI_IsoDataPacket):
+                d = bytes(packet.iso_sdu_fragment)
+                self.got(packet.connection_handle, d[0] | (d[1] << 8))
+            else:
+                super().on_hci_packet(packet)
+
+    async def main():
+        ctl = Ctl()
+        host = Host(ctl, AsyncPipeSink(ctl))
+        await host.reset()
+        queues = [host.acl_packet_queue, host.iso_packet_queue] if shared else \
+                 [host.acl_packet_queue, host.le_acl_packet_queue, host.iso_packet_queue]
+        if shared and host.le_acl_packet_queue is not host.acl_packet_queue:
+            return None, None, None, 'controller reports no LE buffers but the host built a separate LE queue'
+        live = {}           # handle -> kind
+        bigs = {}
+        bad = []
+        over = []
+        closing = set()
+        lied = []           # the controller reported completions it had not earned: the credit bound is then its problem
+
+        def got(handle, pid):
+            k = live.get(handle)
+            if k is None and handle in closing:
+                # Host.remove_big flushes the BIS handles of a BIG one after the other: a waiting packet of a BIS that
+                # is next in line may still be handed over (to a controller that no longer knows the handle, and that
+                # will never report it: its credit is released by that handle's own flush, a moment later)
+                ctl.log.append([pid, handle])
+                return
+            if k is None:
+                bad.append(f'packet {pid} handed to the controller for handle 0x{handle:04X}, which has no live link')
+                return
+            ctl.held.append((qidx[k], handle, pid))
+            ctl.log.append([pid, handle])
+            n = sum(1 for x in ctl.held if x[0] == qidx[k])
+            if n > caps[qidx[k]] and not lied:
+                over.append(f'{n} packets outstanding in pool {qidx[k]}, the controller advertised {caps[qidx[k]]}')
+        ctl.got = got
+
+        async def settle():
+            for _ in range(12):
+                await asyncio.sleep(0)
+
+        def report(hs, cs):
+            ctl.send_hci_packet(hci.HCI_Number_Of_Completed_Packets_Event(connection_handles=hs, num_completed_packets=cs))
+
+        mops = []
+        submitted = {}      # (handle, incarnation) -> ids
+        inc = {}
+        seq = 0
+        for o in sc['ops']:
+            if o[0] == 'O':
+                k, hs = o[1], o[2]
+                for h in hs:
+                    live[h] = k
+                    inc[h] = inc.get(h, 0) + 1
+                    mops.append(f'HOpen {h} {qidx[k]}%nat')
+                if k == 'c':
+                    ctl.send_hci_packet(hci.HCI_Connection_Complete_Event(
+                        status=0, connection_handle=hs[0], bd_addr=hci.Address(f'11:22:33:44:55:{hs[0] & 0xFF:02X}', hci.Address.PUBLIC_DEVICE_ADDRESS),
+                        link_type=hci.HCI_Connection_Complete_Event.LinkType.ACL, encryption_enabled=0))
+                elif k == 'l':
+                    ctl.send_hci_packet(hci.HCI_LE_Connection_Complete_Event(
+                        status=0, connection_handle=hs[0], role=hci.Role.CENTRAL, peer_address_type=hci.AddressType.PUBLIC_DEVICE,
+                        peer_address=hci.Address(f'AA:BB:CC:DD:EE:{hs[0] & 0xFF:02X}', hci.Address.PUBLIC_DEVICE_ADDRESS),
+                        connection_interval=24, peripheral_latency=0, supervision_timeout=100, central_clock_accuracy=0))
+                elif k == 'cis':
+                    ctl.send_hci_packet(hci.HCI_LE_CIS_Established_Event(
+                        status=0, connection_handle=hs[0], cig_sync_delay=0, cis_sync_delay=0, transport_latency_c_to_p=0,
+                        transport_latency_p_to_c=0, phy_c_to_p=1, phy_p_to_c=1, nse=1, bn_c_to_p=1, bn_p_to_c=1, ft_c_to_p=1,
+                        ft_p_to_c=1, max_pdu_c_to_p=100, max_pdu_p_to_c=100, iso_interval=8))
+                else:
+                    bigs[o[3]] = list(hs)
+                    if o[4] == 'create':
+                        ctl.send_hci_packet(hci.HCI_LE_Create_BIG_Complete_Event(
+                            status=0, big_handle=o[3], big_sync_delay=0, transport_latency_big=0, phy=1, nse=1, bn=1, pto=0,
+                            irc=1, max_pdu=100, iso_interval=8, connection_handle=list(hs)))
+                    else:
+                        ctl.send_hci_packet(hci.HCI_LE_BIG_Sync_Established_Event(
+                            status=0, big_handle=o[3], transport_latency_big=0, nse=1, bn=1, pto=0, irc=1, max_pdu=100,
+                            iso_interval=8, connection_handle=list(hs)))
+            elif o[0] == 'X':
+                if o[1] == 'bis':
+                    hs = bigs.pop(o[2])
+                    for h in list(set(hs)):                 # Host.remove_big walks the set of BIS handles
+                        mops.append(f'HCloseOwn {h}')
+                    for h in hs:
+                        del live[h]
+                    closing.update(hs)
+                    ctl.held = [x for x in ctl.held if x[1] not in hs]
+                    if o[3] == 'terminate':
+                        ctl.send_hci_packet(hci.HCI_LE_Terminate_BIG_Complete_Event(big_handle=o[2], reason=0x16))
+                    else:
+                        ctl.send_hci_packet(hci.HCI_LE_BIG_Sync_Lost_Event(big_handle=o[2], reason=0x08))
+                else:
+                    h = o[2]
+                    mops.append(f'HClose {h}')
+                    del live[h]
+                    ctl.held = [x for x in ctl.held if x[1] != h]
+                    ctl.send_hci_packet(hci.HCI_Disconnection_Complete_Event(status=0, connection_handle=h, reason=0x13))
+            elif o[0] == 'S':
+                h = o[1]
+                for _ in range(o[2]):
+                    sdu = bytes([seq & 0xFF, seq >> 8, 0x5A])
+                    submitted.setdefault((h, inc[h]), []).append(seq)
+                    mops.append(f'HSend {seq} {h}')
+                    if live[h] in ('c', 'l'):
+                        host.send_acl_sdu(h, sdu)
+                    else:
+                        host.send_iso_sdu(h, sdu)
+                    seq += 1
+            elif o[0] == 'C':
+                for _ in range(o[1]):
+                    if not ctl.held:
+                        break
+                    _, h, _ = ctl.held.pop(0)
+                    mops.append(f'HDone 1 {h}')
+                    report([h], [1])
+                    await settle()
+            elif o[0] == 'M':
+                hs, cs = [], []
+                while ctl.held and sum(cs) < o[1]:
+                    _, h, _ = ctl.held.pop(0)
+                    if h in hs:
+                        cs[hs.index(h)] += 1
+                    else:
+                        hs.append(h)
+                        cs.append(1)
+                if hs:
+                    for h, c in zip(hs, cs):
+                        mops.append(f'HDone {c} {h}')
+                    report(hs, cs)
+            else:
+                # a report the controller should not send (nothing held is released): stale / duplicate / unknown handle
+                mops.append(f'HDone {o[2]} {o[1]}')
+                if o[2] > 0 and o[1] in live:
+                    lied.append(1)
+                report([o[1]], [o[2]])
+            await settle()
+            closing.clear()
+            if over:
+                return None, None, None, over[0]
+            if bad:
+                return None, None, None, bad[0]
+        # oracle (implementation observables only): per link incarnation, what reached the controller is a prefix of
+        # what was submitted (all of it for a link that is still live: every completion was reported at the end) ...
+        sent_by = {}
+        ptr = {h: 0 for h in inc}
+        # attribute each logged packet to the incarnation that submitted that id
+        owner = {pid: key for key, ids in submitted.items() for pid in ids}
+        for pid, h in ctl.log:
+            sent_by.setdefault(owner.get(pid), []).append(pid)
+        verdict = None
+        spurious = any(o[0] == 'R' and o[2] > 0 for o in sc['ops'])
+        for key, ids in submitted.items():
+            got_ids = sent_by.get(key, [])
+            h, n = key
+            still_live = (h in live and inc[h] == n)
+            if got_ids != ids[:len(got_ids)]:
+                verdict = f'handle 0x{h:04X} (link #{n} on it): handed over {got_ids}, not a prefix of the submitted {ids}'
+            elif still_live and got_ids != ids and not spurious:
+                verdict = (f'handle 0x{h:04X} (link #{n} on it, live): {len(ids) - len(got_ids)} packet(s) left waiting although the '
+                           f'controller reported every buffer free')
+            if verdict:
+                break
+        if verdict is None and not spurious:
+            for i, q in enumerate(queues):
+                if q.pending != 0:
+                    verdict = f'queue {i}: pending={q.pending} after every packet was reported completed or its link closed'
+                    break
+        if verdict is None:
+            # ... and no queue keeps anything for a handle without a live link routed to it (also with spurious reports)
+            for i, q in enumerate(queues):
+                known = set(q._connection_state) | {h for (_, h) in q._packets}
+                stale = sorted(h for h in known if live.get(h) is None or qidx[live[h]] != i)
+                if stale:
+                    verdict = f'queue {i} keeps state for handle(s) {stale} that have no live link on it'
+                    break
+        obs = []
+        for q in queues:
+            conns = sorted([h, st.in_flight, st.drained.is_set()] for h, st in q._connection_state.items())
+            waiting = []
+            for (p, h) in reversed(q._packets):
+                d = bytes(p.data) if isinstance(p, hci.HCI_AclDataPacket) else bytes(p.iso_sdu_fragment)
+                waiting.append([d[0] | (d[1] << 8), h])
+            obs.append([q._in_flight, conns, waiting, q.pending])
+        return mops, ctl.log, obs, verdict
+    return asyncio.run(main())
+
+
+def routing_model_expr(sc, mops):
+    g = sc['geom']
+    caps = [g['acl_count'], g['iso_count']] if not g['le_count'] else [g['acl_count'], g['le_count'], g['iso_count']]
+    return (f"let '(s, sent) := h_run (h_init {coq_list(caps, coq_z)}) [{'; '.join(mops)}] in "
+            f"(sent, map q_obs (h_queues s))")
+
+
+CORPUS_ROUTING = [
+    # seeded C04-e: BIS on the ISO queue, BIG terminated, handle re-used by an LE ACL link
+    {'geom': {'acl_count': 4, 'le_count': 2, 'iso_count': 2},
+     'ops': [['O', 'bis', [16], 1, 'create'], ['S', 16, 3], ['C', 9], ['X', 'bis', 1, 'terminate'], ['O', 'l', [16]],
+             ['S', 16, 5], ['C', 999]]},
+    # seeded C16-e: a link closed while all its packets are still queued behind another link's
+    {'geom': {'acl_count': 4, 'le_count': 2, 'iso_count': 1},
+     'ops': [['O', 'l', [1]], ['O', 'l', [2]], ['S', 1, 2], ['S', 2, 2], ['X', 'l', 2], ['C', 9], ['S', 1, 1], ['C', 999]]},
+]
+
+
+def check_routing(ctx, scs):
+    runs = [run_routing_scenario(sc) for sc in scs]
+    todo = [(sc, r) for sc, r in zip(scs, runs) if r[0] is not None]
+    model = ctx.coq_eval(['Model.DataQueue', 'Model.QueueRouting'], [routing_model_expr(sc, r[0]) for sc, r in todo])
+    mit = iter(model)
+    for k, (sc, (mops, log, obs, verdict)) in enumerate(zip(scs, runs)):
+        reuse = len({h for o in sc['ops'] if o[0] == 'O' for h in o[2]}) < sum(len(o[2]) for o in sc['ops'] if o[0] == 'O')
+        ctx.case(('r', json.dumps(sc, sort_keys=True)), reuse, {'kind': 'routing', **sc} if k == 2 else None)
+        ctx.count('routing.scenarios')
+        ctx.count('routing.handle_reused' if reuse else 'routing.no_reuse')
+        for o in sc['ops']:
+            ctx.count('routing.op.' + o[0] + (':' + o[1] if o[0] in 'OX' else ''))
+        if mops is not None:
+            msent, mobs = next(mit)
+            m = [[list(x) for x in msent],
+                 [[i, sorted([list(c) for c in cs]), [list(x) for x in w], p] for (i, cs, w, p) in mobs]]
+            if m != [log, obs]:
+                ctx.disagree('Host queue routing', sc, m, [log, obs])
+        if verdict:
+            ctx.violation('routing:' + verdict.split(' ')[0] + ':' + ''.join(o[0] + (o[1][0] if o[0] in 'OX' else '') for o in sc['ops'][:10]),
+                          f'Host + controller {sc["geom"]}: {verdict}', {'kind': 'routing', **sc})
+
+
+
 # ----------------------------------------------------------------------------- pipe
 def gen_pipe_history(rng, max_len):
     threshold = rng.choice([0, 1, 3, 10, 1000])
@@ -508,6 +824,8 @@ def run(ctx):
         if bad:
             ctx.violation('host:' + ('shared' if not sc['geom']['le_count'] else 'dedicated') + ':' + bad.split(' ')[1][:12],
                           f'Host + controller {sc["geom"]}: {bad}', {'kind': 'host', **sc})
+    # ---- routing: several queues, links of all kinds coming and going on re-used handles
+    check_routing(ctx, list(CORPUS_ROUTING) + [gen_routing_scenario(rng) for _ in range(ctx.n(250, 5000))])
     # ---- pipe
     pcases = [(t, ops, True) for t, ops in CORPUS_PIPE] + [(t, ops, False) for t, ops in CORPUS_PIPE]
     for _ in range(ctx.n(400, 4000)):
@@ -570,6 +888,12 @@ def search(ctx):
                 return
     search_pipe(ctx)
     if not ctx.violations:
+        for sc in list(CORPUS_ROUTING) + [gen_routing_scenario(ctx.rng, 60) for _ in range(1500)]:
+            r = run_routing_scenario(sc)
+            if r[3]:
+                ctx.violation('routing:search', f'Host + controller {sc["geom"]}: {r[3]}', {'kind': 'routing', **sc})
+                return
+    if not ctx.violations:
         for _ in range(400):
             sc = gen_host_scenario(ctx.rng)
             bad = run_host_scenario(sc)
@@ -606,6 +930,10 @@ def replay(ctx, obj):
         print('oracle:', queue_oracle(r['max_in_flight'], r['ops'], per_op) or 'holds')
     elif r['kind'] == 'host':
         print('oracle:', run_host_scenario(r) or 'holds')
+    elif r['kind'] == 'routing':
+        mops, log, obs, verdict = run_routing_scenario(r)
+        print('handed to the controller [id, handle]:', log)
+        print('oracle:', verdict or 'holds')
     elif r['kind'] == 'drain':
         print('oracle:', drain_oracle(r['max_in_flight'], r['ops']) or 'holds')
     else:
